@@ -713,7 +713,7 @@ func runInvokesWaiters(p *Prog, run *Func, q types.Object) (string, bool) {
 		if !ok || len(as.Lhs) != 1 || len(as.Rhs) != 1 {
 			return true
 		}
-		call, ok := ast.Unparen(as.Rhs[0]).(*ast.CallExpr)
+		call, ok := ast.Unparen(resolveLocal(run, as.Rhs[0])).(*ast.CallExpr)
 		if !ok || callName(info, call) != "pubsub.(*Queue).Iterator" {
 			return true
 		}
